@@ -18,6 +18,8 @@ pub struct MemoryAreas {
   pub io: IO,
 
   pub oam_dma: Option<DMAState>,
+  /// last value written to the DMA register (0xff46), returned by reads
+  pub oam_dma_register: u8,
 
   rom_mapped: bool,
 }
@@ -67,6 +69,7 @@ impl MemoryAreas {
       io: IO::new(),
 
       oam_dma: None,
+      oam_dma_register: 0xff,
 
       rom_mapped: false,
     }
@@ -99,6 +102,7 @@ impl MemoryAreas {
 
       io: IO::new(),
       oam_dma: None,
+      oam_dma_register: 0xff,
 
       rom_mapped: true,
     }
@@ -236,7 +240,7 @@ pub extern "sysv64" fn memory_read_byte(areas: *const MemoryAreas, addr: u16) ->
   }
   if addr < 0xff80 { // I/O
     if addr == 0xff46 {
-      // TODO: OAM should return last written value
+      return memory_areas.oam_dma_register;
     } else {
       return memory_areas.io.get_byte(addr);
     }
@@ -295,6 +299,7 @@ pub extern "sysv64" fn memory_write_byte(areas: *mut MemoryAreas, addr: u16, val
   if addr < 0xff80 { // I/O
     if addr == 0xff46 {
       let source = (value as usize) << 8;
+      memory_areas.oam_dma_register = value;
       memory_areas.oam_dma = Some(
         DMAState {
           source,
